@@ -23,7 +23,7 @@ inductive Step where
   | lookupSet | lookupDelOld | lookupDelUc
   | liveSet | liveDelOldSet | liveDelUc
   | enqueueSave | ret
-  | readFile | deferClose | guardChanged | decode | guardDecodeOk | buildMaps
+  | readFile | deferClose | guardChanged | guardChangedLoaded | decode | guardDecodeOk | buildMaps
   | setCachedContent | setLookup | setCache
   | liveReplaceTcpLocal | liveReplaceUdpLocal | liveReplaceTcpShared | liveReplaceUdpShared
 deriving DecidableEq, Repr
@@ -164,12 +164,16 @@ func extract(p *gen.Pkg, name string) ([]string, error) {
 		}
 		retNil := p.Src(ret.Results[0]) == "nil"
 		switch {
-		case header == "content == s.cachedContent":
+		case header == "content == s.cachedContent" || header == "s.cachedCredMap != nil && content == s.cachedContent":
 			if !retNil || !locked {
 				return nil, fail(st, "unchanged-content guard")
 			}
-			steps = append(steps, "guardChanged")
-			prev = "guardChanged"
+			g := "guardChanged"
+			if strings.HasPrefix(header, "s.cachedCredMap != nil") {
+				g = "guardChangedLoaded"
+			}
+			steps = append(steps, g)
+			prev = g
 		case header == "err != nil" && prev == "mkConfig":
 			if retNil {
 				return nil, fail(st, "error swallowed")
